@@ -126,7 +126,9 @@ def gen_case(rng, big=False):
     ns = rng.choice([2, 2, 3])
     f = rng.choice([2, 2, 3])
     if big:
-        rows, cols = rng.choice([(24, 210), (206, 26)])
+        # the short side must still hold a matching window at the coarsest level (see the comment below)
+        short = max(24, 6 * f ** (ns - 1))
+        rows, cols = rng.choice([(short, 210), (206, short + 2)])
     else:
         # the coarsest level must still hold a matching window (images smaller than the window are outside C02's domain)
         base = f ** (ns - 1)
